@@ -301,10 +301,10 @@ theorem phase_steady {iss : SideId → Seq} (s : Sys) (hg : Good iss s) (ta tb :
   have h4pb : s4.side .B = s3.side .B := h4p
   have h4b : (s4.side .B).tcb = some tb2 := by rw [h4pb]; exact h3b
   -- both applications read
-  obtain ⟨s5, r5, st5, h5a, h5p, h5sub⟩ := read_facts s4 .A ta2 h4a a_st
+  obtain ⟨s5, r5, st5, h5a, h5p, h5sub, _⟩ := read_facts s4 .A ta2 h4a a_st
   have h5pb : s5.side .B = s4.side .B := h5p
   have h5b : (s5.side .B).tcb = some tb2 := by rw [h5pb]; exact h4b
-  obtain ⟨s6, r6, st6, h6b, h6p, h6sub⟩ := read_facts s5 .B tb2 h5b b_st
+  obtain ⟨s6, r6, st6, h6b, h6p, h6sub, _⟩ := read_facts s5 .B tb2 h5b b_st
   have h6pa : s6.side .A = s5.side .A := h6p
   have h6a : (s6.side .A).tcb = some { ta2 with incoming.text := [] } := by rw [h6pa]; exact h5a
   -- the phase, as computed
